@@ -412,3 +412,94 @@ def known_mpmc_two_streams(prefix):
     threads = [[S("send", "tx", v=101), S("recv", "rx"), S("recv", "n1")]]
     fin = [S("drop", "tx"), S("drop", "rx"), S("drop", "n1")]
     return [scenario("%s-mpmcF-addstreamwith-0" % prefix, "mpmc", True, 2, "busy", setup, threads, fin)]
+
+
+# --------------------------------------------------------------------------- C14 / C15
+def futures_scn(prefix, family, caps=(1, 2), spins=(0, 0)):
+    """sink and stream tasks on a deterministic executor: a task that got NotReady waits for its
+    notification; receivers drain through poll, through the direct methods, or are dropped"""
+    out = []
+    k = 0
+    for cap in caps:
+        variants = []
+        # (P, streams, sends per producer, consumer program per handle)
+        variants.append((1, [1], cap + 2, "frecv_all"))
+        variants.append((2, [1], cap + 1, "frecv_all"))
+        variants.append((1, [2], cap + 2, "frecv_all"))
+        variants.append((1, [1], cap + 2, "recv_all"))       # direct try_recv drains, sink parks
+        variants.append((1, [1], cap + 2, "brecv_all"))      # direct blocking recv on a futures receiver
+        variants.append((2, [2], cap + 1, "recv_all"))
+        if family == "bcast":
+            variants.append((1, [1, 1], cap + 1, "frecv_all"))
+            variants.append((1, [1, 2], cap + 1, "frecv_all"))
+        for (P, streams, ns, cprog) in variants:
+            t = Topo(family, P, streams)
+            threads = []
+            for pi, s in enumerate(t.senders):
+                threads.append(sends(s, 100 * (pi + 1) + 1, ns, api="fsend", drop=True))
+            for hs in t.streams:
+                for h in hs:
+                    threads.append([S(cprog, h)])
+            fin = []
+            for hs in t.streams:
+                fin.append(S("recv", hs[0]))
+                for h in hs:
+                    fin.append(S("drop", h))
+            name = "%s-%sF-c%d-%d" % (prefix, family, cap, k)
+            k += 1
+            out.append(scenario(name, family, True, cap, "busy", t.setup, threads, fin, spins=list(spins)))
+        # single-consumer futures receiver (view closure), polled in a task
+        t = Topo(family, 1, [1])
+        threads = [sends("tx", 101, cap + 2, api="fsend", drop=True), [S("frecv_all", "rx")]]
+        name = "%s-%sF-uni-c%d-%d" % (prefix, family, cap, k)
+        k += 1
+        out.append(scenario(name, family, True, cap, "busy", [S("into_single", "rx")], threads,
+                            [S("recv", "rx"), S("drop", "rx")], spins=list(spins)))
+        # the receiver of a parked sink goes away / a slow stream is removed
+        t = Topo(family, 1, [1])
+        threads = [sends("tx", 101, cap + 2, api="fsend"), [S("poll", "rx"), S("drop", "rx")]]
+        name = "%s-%sF-rxdrop-c%d-%d" % (prefix, family, cap, k)
+        k += 1
+        out.append(scenario(name, family, True, cap, "busy", t.setup, threads, [S("send", "tx", v=901), S("drop", "tx")],
+                            spins=list(spins)))
+        if family == "bcast":
+            t = Topo(family, 1, [1, 1])
+            threads = [sends("tx", 101, cap + 1, api="fsend", drop=True), [S("drop", "s2")], [S("frecv_all", "rx")]]
+            name = "%s-%sF-rmstream-c%d-%d" % (prefix, family, cap, k)
+            k += 1
+            out.append(scenario(name, family, True, cap, "busy", t.setup, threads, [S("recv", "rx"), S("drop", "rx")],
+                                spins=list(spins)))
+    return out
+
+
+# --------------------------------------------------------------------------- C16 / C17
+def churn(prefix, family="bcast", caps=(2,), cycles=7, fut=False):
+    """stream add/remove and handle clone/drop churn with enough retirements to trigger reclamation cycles,
+    writers scanning the stream list, and idle handles that never operate"""
+    out = []
+    k = 0
+    snd = "start_send" if fut else "send"
+    rcv = "poll" if fut else "recv"
+    for cap in caps:
+        # idle handles: a sender clone and a receiver clone that never operate
+        setup = [S("clone", "tx", new="idle_tx"), S("clone", "rx", new="idle_rx")]
+        churner = []
+        for i in range(cycles):
+            if family == "bcast":
+                churner += [S("add_stream", "rx", new="a%d" % i), S(rcv, "a%d" % i), S("drop", "a%d" % i)]
+            churner += [S("clone", "rx", new="c%d" % i), S("drop", "c%d" % i)]
+        prod = []
+        for i in range(cycles):
+            prod += [S(snd, "tx", v=101 + i)]
+        cons = [S(rcv, "rx") for _ in range(cycles)]
+        churn2 = []
+        for i in range(cycles):
+            churn2 += [S("clone", "tx", new="t%d" % i), S(snd, "t%d" % i, v=201 + i), S("drop", "t%d" % i)]
+        fin = [S("drop", "idle_tx"), S("drop", "tx"), S("drain", "rx"), S("drop", "idle_rx"), S("drop", "rx")]
+        for threads in ([prod, churner, cons], [prod, churner, churn2], [churn2, churner]):
+            name = "%s-%s%s-c%d-%d" % (prefix, family, "F" if fut else "", cap, k)
+            k += 1
+            s = scenario(name, family, fut, cap, "busy", setup, threads, fin)
+            s["livelock"] = 4000
+            out.append(s)
+    return out
